@@ -74,6 +74,7 @@ class Obligation:
         self.detail = detail
         self.expect = expect      # 'unsat' = proof obligation (negated goal); 'sat' = cover
         self.result = None
+        self.oos = False
         self.inputs = {}          # name -> term, for model extraction
 
 
